@@ -101,7 +101,10 @@ class Recorder:
         self.ei = ei
         self.force_short = False
         self.stats = {'halt': 0, 'ei': 0, 'ldair': 0, 'prefix': 0, 'other': 0, 'accepted': 0, 'ei_blocked': 0, 'short': 0,
-                      'ins': 0, 'fetch': 0, 'instructions': 0, 'outs': 0, 'im2': 0, 'halt_wrap': 0}
+                      'ins': 0, 'fetch': 0, 'instructions': 0, 'outs': 0, 'im2': 0, 'halt_wrap': 0,
+                      'locked_7ffd_writes': 0, 'locked_7ffd_writes_other_value': 0, 'locked_7ffd_writes_bit5_clear': 0}
+        self.frame_no = 0
+        self.lock_frame = None       # index of the first frame at whose end the 128K paging lock (bit 5 of 0x7FFD) is set
         self.need_bit0 = False
         self.ambiguous = []          # reasons why this recording is outside what the convention defines
         self.hazard = False          # a boundary where re-reading the opcode after execution classifies the instruction differently
@@ -133,10 +136,20 @@ class Recorder:
             if got:
                 ins.extend(got)
             for port, value in outs:
-                self.ports.out(port, value)
+                p = self.ports
+                if p.is128 and port & 0x8002 == 0 and p.page.locked:
+                    st['locked_7ffd_writes'] += 1
+                    if value != p.page.value:
+                        st['locked_7ffd_writes_other_value'] += 1
+                    if not value & 0x20:
+                        st['locked_7ffd_writes_bit5_clear'] += 1
+                p.out(port, value)
                 st['outs'] += 1
             if short or regs[T] >= flen:
                 break
+        if self.lock_frame is None and self.ports.is128 and self.ports.page.locked:
+            self.lock_frame = self.frame_no
+        self.frame_no += 1
         last = classify(op0, op1)
         if regs[IFF]:
             again = classify(cpu.peek(pc), cpu.peek((pc + 1) & 0xFFFF))
